@@ -234,7 +234,12 @@ def check_property(pid, tier, seed):
                 f["attrib"] = "own"
             else:
                 f["attrib"] = "other"
-            if f["attrib"] == "shared" and pid not in STAR_OWNERS and not spec.get("owns_shared"):
+            if f["attrib"] == "shared" and spec.get("owns_shared") == "safety":
+                # owns only panic-freedom: preconditions (of panic primitives, pushes, callees) and machine arithmetic
+                if not (kind.startswith("precondition not satisfied") or "arithmetic" in kind or "division" in kind or "bit shift" in kind):
+                    undecided.append("%s: shared obligation fails (not a panic-freedom obligation; owned by C04): %s (%s)" % (tag, name, kind))
+                    continue
+            elif f["attrib"] == "shared" and pid not in STAR_OWNERS and not spec.get("owns_shared"):
                 undecided.append("%s: shared obligation fails (owned by %s): %s (%s)" % (tag, ",".join(STAR_OWNERS), name, kind))
                 continue
             if f["attrib"] == "other":
